@@ -22,9 +22,9 @@ fn parse(line: &str) -> (Kind, Vec<(usize, String, u64, Vec<u8>)>) {
 
 fn run(line: &str) -> String {
     if let Some(k) = line.split(' ').nth(1) {
-        if k == "L" || k == "T" {
+        if k == "L" || k == "T" || k == "H" {
             let (kind, cap, evs) = concrete::parse(line);
-            return if kind == 'L' { concrete::run_tls(cap, &evs) } else { DB.with(|db| concrete::run_tcp(db, cap, &evs)) };
+            return match kind { 'L' => concrete::run_tls(cap, &evs), 'H' => concrete::run_http(cap, &evs), _ => DB.with(|db| concrete::run_tcp(db, cap, &evs)) };
         }
     }
     let (kind, pk) = parse(line);
@@ -138,6 +138,41 @@ fn gen(r: &mut Rng, tier: &Tier, out: &mut Vec<String>) {
         let cap = match case % 16 { 3 | 10 => 1 + r.below(if tls { 3 } else { 6 }) as usize, 7 => 2 * conns.len(), _ => 1000 };
         let tr = interleave(r, &conns, case % 5 == 0);
         out.push(concrete::line(if tls { 'L' } else { 'T' }, cap, &tr));
+    }
+    // kind H: HTTP/1.x connections (requests in 1-4 segments or forced splits, responses in the opposite direction,
+    // same-host pairs, sibling connections, one-way IP options) through the packet-level HTTP analyzer model
+    for case in 0..tier.scale(400, 3000) {
+        let n = 2 + r.below(4) as usize;
+        let mut conns: Vec<Vec<Frame>> = Vec::new();
+        for j in 0..n {
+            let id = (case as u64 * 7 + j as u64 * 31) % 5000 + j as u64 * 6000;
+            let mut sp = ConnSpec::new(0, r.chance(1, 5), id);
+            sp.same_host = r.chance(1, 6); sp.client_ip_opts = r.chance(1, 6);
+            if r.chance(1, 3) { sp.force_segs = Some(2 + r.below(5) as usize); }
+            let t0 = 1_000_000 + r.below(1000);
+            conns.push(connection(r, &sp, t0));
+        }
+        if case % 3 == 1 {
+            let v6 = r.chance(1, 2); let base = 100 + r.below(50); let port = 30000 + r.below(1000) as u16;
+            let variant = r.below(4);
+            for j in 0..2u64 {
+                let mut sp = ConnSpec::new(0, v6, base);
+                match variant {
+                    0 => { sp.cid = Some(base); sp.cport = Some(port); sp.sid = Some(10 + j); }
+                    1 => { sp.cid = Some(base + j); sp.cport = Some(port); sp.sid = Some(7); }
+                    _ => { sp.cid = Some(base); sp.cport = Some(if variant == 2 { port + j as u16 } else { port }); sp.sid = Some(7); }
+                }
+                let mut c = connection(r, &sp, 1_000_000 + 60 * j);
+                if variant == 3 && j == 1 { concrete::rewrite_server_port(&mut c, *r.pick(&[8080u16, 81, 1024, 1025])); }
+                conns.push(c);
+            }
+        }
+        if case % 6 == 4 { for c in conns.iter_mut() { for (f, _) in c.iter_mut() { if r.chance(1, 5) { concrete::mutate_headers(r, f); } } } }
+        let cap = match case % 16 { 3 | 10 => 1 + r.below(3) as usize, 7 => conns.len(), _ => 1000 };
+        let tr = interleave(r, &conns, case % 5 == 0);
+        let mut s = format!("h H {}", cap);
+        for (ci, (f, t)) in &tr { s.push_str(&format!(" {}:{}:{}", ci, t, hex(f))); }
+        out.push(s);
     }
 }
 
